@@ -74,6 +74,20 @@ pub enum WindingResult {
     FinishWithFailure,
 }
 
+/// verification hook (only with `--cfg saito_verif`): counts iterations of the wind/unwind loop in
+/// `Blockchain::validate` and makes the loop give up once the limit set by the harness is exceeded,
+/// so that a livelock becomes a deterministic verdict instead of a hang.
+#[cfg(saito_verif)]
+pub static VERIF_WIND_STEPS: std::sync::atomic::AtomicU64 = std::sync::atomic::AtomicU64::new(0);
+#[cfg(saito_verif)]
+pub static VERIF_WIND_STEP_LIMIT: std::sync::atomic::AtomicU64 =
+    std::sync::atomic::AtomicU64::new(u64::MAX);
+#[cfg(saito_verif)]
+fn verif_wind_step_exceeded() -> bool {
+    use std::sync::atomic::Ordering;
+    VERIF_WIND_STEPS.fetch_add(1, Ordering::Relaxed) + 1 > VERIF_WIND_STEP_LIMIT.load(Ordering::Relaxed)
+}
+
 #[derive(Debug)]
 pub struct Blockchain {
     pub utxoset: UtxoSet,
@@ -1160,6 +1174,10 @@ impl Blockchain {
             let mut result: WindingResult =
                 WindingResult::Wind(new_chain.len() - 1, false, WALLET_NOT_UPDATED);
             loop {
+                #[cfg(saito_verif)]
+                if verif_wind_step_exceeded() {
+                    return (false, wallet_update_status);
+                }
                 match result {
                     WindingResult::Wind(current_wind_index, wind_failure, wallet_status) => {
                         wallet_update_status |= wallet_status;
@@ -1202,6 +1220,10 @@ impl Blockchain {
         } else if !new_chain.is_empty() {
             let mut result = WindingResult::Unwind(0, true, old_chain.to_vec(), WALLET_NOT_UPDATED);
             loop {
+                #[cfg(saito_verif)]
+                if verif_wind_step_exceeded() {
+                    return (false, wallet_update_status);
+                }
                 match result {
                     WindingResult::Wind(current_wind_index, wind_failure, wallet_status) => {
                         wallet_update_status |= wallet_status;
